@@ -1295,6 +1295,20 @@ def install_builtins(reg: Registry):
             return PyDict(v.d)
         return v
 
+    @H("dataclasses.replace")
+    def h_dc_replace(i, a, k, n):
+        assumed(i, "dataclasses.replace: a new instance whose fields are the original's (shared, not copied) except the given ones")
+        v = a[0]
+        if not isinstance(v, Obj):
+            raise Unsupported("dataclasses.replace of a non-object")
+        o = Obj(v.cls, dict(v.f), tag=v.tag)
+        o.absent = set(v.absent)
+        o.f.update(k)
+        o.shallow_copy_of = v
+        return o
+
+    reg.handlers["replace"] = h_dc_replace
+    reg.import_ok.add("dataclasses.replace")
     reg.handlers["deepcopy"] = h_deepcopy
     reg.import_ok.add("copy.deepcopy")
 
